@@ -83,7 +83,7 @@ Definition accepted (vectorize : bool) (inp : arr * list nat) : bool :=
    units requested as outputs; the input arrays are indexed with the step counter whatever the sampling step *)
 Definition run_inputs_core (s : solver) (vectorize : bool) (depth : nat) (T dt : Qc) (dts : option Qc) (cutoff udef : Qc)
            (W : list row) (inputs : list (arr * list nat)) (x0 : row) : outcome :=
-  (* `depth` = hierarchy depth of the circuit: since fix D89 (_add_input_node nests CircuitTemplate objects) the input
+  (* `depth` = hierarchy depth of the circuit; NOT USED by the model (targets are pre-resolved unit numbers): since fix D89 (_add_input_node nests CircuitTemplate objects) the input
      node is placed in input_lvl_i circuits of the same depth and the result does not depend on it (before: any input at
      depth >= 2 raised AttributeError, D30) *)
   if negb (forallb (accepted vectorize) inputs) then ErrShape           (* (N,n) needs vectorize and n = #targets *)
